@@ -93,8 +93,9 @@ kmul!(c03_k8k_kmul_4_4, 4, 4, shaped(1), shaped(1));
 kmul!(c03_k8k_kmul_5_5, 5, 5, shaped(1), { let w: Uint<3> = shaped(1); let l = w.as_limbs(); Uint::new([l[0], l[1], l[2], l[0], l[1]]) });
 //@ name=c03_k8k_kmul_5_5w prop=C03,C15 tier=thorough profile=k8k funcs="karatsuba_mul_limbs (two recursion levels, both trailing)" bound="u8 words, thresholds (2,1): 5x5 limbs, every limb S(1)" free_bits=20
 kmul!(c03_k8k_kmul_5_5w, 5, 5, shaped(1), shaped(1));
-//@ name=c03_k8k_kmul_5_7 prop=C03,C15 tier=thorough profile=k8k funcs="karatsuba_mul_limbs (unequal, both trailing)" bound="u8 words, thresholds (2,1): 5x7 limbs, every limb S(1)" free_bits=24
-kmul!(c03_k8k_kmul_5_7, 5, 7, shaped(1), shaped(1));
+// (a 24-bit 5x7 instance found the carry defect repaired by /repo afee340 within minutes on the defective tree, but proving it on
+// the repaired tree does not finish in 3600 s; the 16-bit instances c03_k8k_kmul_5_7q / c03_k8k_boxed_mul_5_7 below contain the
+// failing pattern and fail on the parent commit.)
 //@ name=c03_k8k_kmul_5_7q prop=C03,C15 tier=quick profile=k8k funcs="karatsuba_mul_limbs (lhs shorter, both trailing),adc_mul_limbs (accumulating)" bound="u8 words, thresholds (2,1): 5x7 limbs, lhs limbs S(1), rhs = [u,u,u,v,w,w,w] with u,v,w S(1)" free_bits=16
 kmul!(c03_k8k_kmul_5_7q, 5, 7, shaped(1), { let t: Uint<3> = shaped(1); let l = t.as_limbs(); Uint::new([l[0], l[0], l[0], l[1], l[2], l[2], l[2]]) });
 
